@@ -126,7 +126,10 @@ def _globals():
     from nixio.util import units
     from nixio.dimension_type import DimensionType
     from nixio.link_type import LinkType
-    return {"units": units, "DimensionType": DimensionType, "LinkType": LinkType}
+    import nixio.validator as V
+    g = {k: v for k, v in vars(V).items() if callable(v) and not k.startswith("_")}      # the verdict helpers
+    g.update({"units": units, "DimensionType": DimensionType, "LinkType": LinkType})
+    return g
 
 
 def py_fired(sites, ns, g):
